@@ -27,6 +27,9 @@ type C18Case struct {
 	// viewer's (timestamps after the viewer's now): they occupy ring slots of intervals inside the viewer's window
 	Later   []SlotWrite `json:"later,omitempty"`
 	LaterBy int64       `json:"later_by,omitempty"`
+	// BlankFirst > 0: the first physical slot of archive BlankFirst-1 is zeroed after the file was built (a hole
+	// punched by another tool): view-raw still prints every physical slot as it is stored
+	BlankFirst int `json:"blank_first,omitempty"`
 }
 
 // checkHeaderBlock compares printed header records with the layout (independent rendering rules).
@@ -91,7 +94,17 @@ func runC18(c C18Case, ev *Evid) (fs []Finding) {
 			return
 		}
 	}
-	desc := fmt.Sprintf("now=%d from=%d until=%d archive=%d header=%v sort=%v layout=%s later-writes=%d", now, c.From, c.Until, c.ArchiveID, c.ShowHeader, c.Sort, l, len(c.Later))
+	if c.BlankFirst > 0 && c.BlankFirst <= len(l.Archives) {
+		off := int64(16 + 12*len(l.Archives))
+		for a := 0; a < c.BlankFirst-1; a++ {
+			off += 12 * l.Archives[a].Points
+		}
+		if f, err := os.OpenFile(path, os.O_WRONLY, 0); err == nil {
+			f.WriteAt(make([]byte, 12), off)
+			f.Close()
+		}
+	}
+	desc := fmt.Sprintf("now=%d from=%d until=%d archive=%d header=%v sort=%v layout=%s later-writes=%d blank-first=%d", now, c.From, c.Until, c.ArchiveID, c.ShowHeader, c.Sort, l, len(c.Later), c.BlankFirst)
 	// ---- view
 	vout := filepath.Join(dir, "view.txt")
 	vc := &cmd.ViewCommand{SrcBase: filepath.Join(dir, "base"), SrcRelPath: "d/f.wsp", From: wt.Timestamp(c.From), Until: wt.Timestamp(c.Until), ArchiveID: c.ArchiveID, ShowHeader: c.ShowHeader, TextOut: vout}
@@ -339,6 +352,9 @@ func TestC18(t *testing.T) {
 				for i := 0; i < n; i++ {
 					c.Later = append(c.Later, SlotWrite{Arch: 0, T: c.Now + rapid.Int64Range(1, c.LaterBy).Draw(t, "laterT"), V: F64(genFileValue(t, valPrintable))})
 				}
+			}
+			if rapid.IntRange(0, 11).Draw(t, "blankFirst") == 0 {
+				c.BlankFirst = 1 + rapid.IntRange(0, len(l.Archives)-1).Draw(t, "blankArchive")
 			}
 			return c
 		},
